@@ -337,12 +337,16 @@ class HistoryCheck(Check):
         asked = type_names if ops.chance(2, 3) else [t for t in type_names if ops.chance(1, 2)]
         if not asked:
             return vs
+        if ops.chance(1, 4):
+            # a type named twice: every cached task is still listed exactly once
+            asked = asked + [ops.pick(asked)]
+            probes['type-named-twice'] = 1
         try:
             listed = list(lab.cached_tasks([get_type(t) for t in asked]))
         except Exception as ex:
             return [O.V(self.id, 'cached_tasks-raises', f'{where}: cached_tasks({asked}) raised {type(ex).__name__}: {str(ex)[:160]}',
                         provider=provider, exc=type(ex).__name__)]
-        want_nodes = sorted(i for i in model if ref.tname(i) in asked)
+        want_nodes = sorted(i for i in model if ref.tname(i) in set(asked))
         got_nodes = []
         for t in listed:
             ident = getattr(t, 'ident', None)
